@@ -489,3 +489,99 @@ pub fn c09trained(args: &[String]) {
     }
     write_json(&args[2], &json!({"dictionaries": ndict, "frames": nframes, "with_dict_id": with_id, "without_dict_id": without_id, "mismatches": bad, "first": mism, "samples": samples}));
 }
+
+/// seqstream <zf_cases.ndjson> <rows.ndjson> <report.json> [stride]
+/// Rows for SeqStream.tla: per compressed block with sequences of every valid specification-generated frame, the three
+/// tables as the serializer resolved them, the stream bytes it wrote, the sequences it meant, and the triples the real
+/// decoder reported through its sequence events.
+pub fn seqstream(args: &[String]) {
+    use crate::fsecodec::{encode_sequences, SeqTables, LL_DEF, ML_DEF, OF_DEF};
+    use std::io::Write;
+    quiet_panics();
+    let f = std::io::BufReader::new(std::fs::File::open(&args[0]).unwrap());
+    let mut w = std::io::BufWriter::new(std::fs::File::create(&args[1]).unwrap());
+    let stride: usize = args.get(3).and_then(|s| s.parse().ok()).unwrap_or(1);
+    let (mut frames, mut rows, mut skipped) = (0u64, 0u64, 0u64);
+    let mut modes_seen = std::collections::BTreeMap::<String, u64>::new();
+    let mut seen = std::collections::HashSet::<String>::new();
+    let mut distinct = 0usize;
+    for (li, line) in f.lines().enumerate() {
+        let c: Value = serde_json::from_str(&line.unwrap()).unwrap();
+        if !c["ok"].as_bool().unwrap() {
+            continue;
+        }
+        let fr = &c["frame"];
+        let blocks: Vec<Blk> = fr["blocks"].as_array().unwrap().iter().map(block_from_json).collect();
+        if !blocks.iter().any(|b| matches!(b, Blk::Comp { seqs, .. } if !seqs.is_empty())) {
+            continue;
+        }
+        let spec = FrameSpec { name: format!("zf{li}"), win_desc: Some(0), cks: false, dict_id: None, fcs: None, blocks: blocks.clone(), dict: vec![], rep: [1, 4, 8], fcs_width: None, dict_tables: None };
+        let built = match std::panic::catch_unwind(std::panic::AssertUnwindSafe(|| build(&spec))) {
+            Ok(b) => b,
+            Err(_) => {
+                skipped += 1;
+                continue;
+            }
+        };
+        frames += 1;
+        // the real decoder's sequence events, per block
+        verif::take();
+        verif::set_mask(verif::DEC | verif::SEQ);
+        let mut o = Vec::with_capacity(built.content.len() + 16);
+        let _ = std::panic::catch_unwind(std::panic::AssertUnwindSafe(|| FrameDecoder::new().decode_all_to_vec(&built.bytes, &mut o)));
+        let evs = verif::take();
+        verif::set_mask(0);
+        let mut per_block: Vec<Vec<Value>> = vec![];
+        let mut cur: Vec<Value> = vec![];
+        for e in &evs {
+            match e.kind {
+                "seq" => cur.push(json!([e.args[0], e.args[2], e.args[1]])),
+                "block" => per_block.push(std::mem::take(&mut cur)),
+                _ => {}
+            }
+        }
+        // the serializer's tables and streams, block by block
+        let mut prev = SeqTables::default();
+        let mut prev_json: [Value; 3] = [Value::Null, Value::Null, Value::Null];
+        for (bi, b) in blocks.iter().enumerate() {
+            if let Blk::Comp { seqs, modes, .. } = b {
+                if seqs.is_empty() {
+                    continue;
+                }
+                let tab = |m: &SeqMode, def_al: u8, def: &[i32], prev: &Value| -> Value {
+                    match m {
+                        SeqMode::Predef => json!({"mode": "predef", "al": def_al, "probs": def, "sym": 0}),
+                        SeqMode::Rle(c) => json!({"mode": "rle", "al": 0, "probs": [], "sym": c}),
+                        SeqMode::Fse(al, p) => json!({"mode": "fse", "al": al, "probs": p, "sym": 0}),
+                        SeqMode::Repeat => prev.clone(),
+                    }
+                };
+                let t = [tab(&modes.0, 6, &LL_DEF, &prev_json[0]), tab(&modes.1, 5, &OF_DEF, &prev_json[1]), tab(&modes.2, 6, &ML_DEF, &prev_json[2])];
+                let (_tbl, stream) = match encode_sequences(seqs, modes, &mut prev) {
+                    Ok(x) => x,
+                    Err(_) => {
+                        skipped += 1;
+                        break;
+                    }
+                };
+                let names = |m: &SeqMode| match m { SeqMode::Predef => "predef", SeqMode::Rle(_) => "rle", SeqMode::Fse(..) => "fse", SeqMode::Repeat => "repeat" };
+                *modes_seen.entry(format!("{}/{}/{}", names(&modes.0), names(&modes.1), names(&modes.2))).or_insert(0) += 1;
+                let meant: Vec<Value> = seqs.iter().map(|q| json!([q.0, q.1, q.2])).collect();
+                let decoded = per_block.get(bi).cloned().unwrap_or_default();
+                let row = json!({"ll": t[0], "of": t[1], "ml": t[2], "stream": stream, "meant": meant, "decoded": decoded});
+                // identical (tables, stream, outcome) rows once; of the distinct ones every stride-th
+                if seen.insert(row.to_string()) {
+                    distinct += 1;
+                    if distinct % stride == 0 {
+                        serde_json::to_writer(&mut w, &row).unwrap();
+                        w.write_all(b"\n").unwrap();
+                        rows += 1;
+                    }
+                }
+                prev_json = t;
+            }
+        }
+    }
+    w.flush().unwrap();
+    write_json(&args[2], &json!({"frames": frames, "rows": rows, "skipped": skipped, "distinct_rows": distinct, "mode_triples": modes_seen}));
+}
